@@ -363,11 +363,19 @@ func Run(ch Chooser, opt Options, main func()) *Outcome {
 	if opt.MaxSteps == 0 {
 		opt.MaxSteps = 20000
 	}
+	if os.Getenv("VERIF_SCHED_TRACE") != "" {
+		opt.Trace = true
+	}
 	s := &Sched{ch: ch, opt: opt, parked: make(chan *Thread, 64), objs: map[*Obj]*objState{}, ext: map[any]any{}, out: &Outcome{}, branching: true}
 	active.Add(1)
 	defer active.Add(-1)
 	s.spawn(nil, "main", false, main)
 	s.loop()
+	if os.Getenv("VERIF_SCHED_TRACE") != "" {
+		for _, l := range s.out.Trace {
+			fmt.Println("TRACE", l)
+		}
+	}
 	s.out.ForeignOps = s.foreign.Load()
 	s.out.Threads = len(s.threads)
 	s.out.Preemptions = s.preempts
